@@ -3,7 +3,7 @@ from ..core import Rule
 from ..prog import *
 from ..facts import AnalysisBroken
 
-UNITS = ["http"]
+UNITS = ["http", "evutil"]
 LEVEL = "other"
 EXHAUSTIVE = False
 EXPLANATION = ("K6: uri_chars[256] is compared entry by entry with RFC 3986 'unreserved' (ALPHA / DIGIT / - . _ ~); html_replace's switch is "
@@ -229,5 +229,48 @@ def run(ctx, config):
                     if op == "=" and (is_e(rr, "int") and rr[1] == 0 or (is_e(rr, "asg") and is_e(strip(rr[3]), "int"))):
                         continue
                     r4.bad("K4:evhttp_decode_uri_internal:index-modified", el.where(), f.name, "input index modified by %s" % show(el.e))
+    # the value of a %XX escape: either the recognised strtol idiom over exactly the two digits, or a pure expression that is
+    # evaluated for every pair of hexadecimal digits (22 x 22) against 16*hi + lo
+    r5 = Rule("C29-hexvalue", "K6", "the byte produced for %XY is 16*X + Y for every pair of hexadecimal digits, in either case", floor=1)
+    HEX = "0123456789abcdefABCDEF"
+    csts = [(el, rhs) for el, lhs, op, rhs in f.stores() if is_e(strip(lhs), "var") and strip(lhs)[1] == "c" and
+            any(is_e(q, "idx") and eq(q[1], ["var", uri, "param"]) and is_e(strip(q[2]), "bin") for q in walk(rhs)) or
+            (is_e(strip(lhs), "var") and strip(lhs)[1] == "c" and is_e(strip(rhs), "call") and callee_name(strip(rhs)) == "strtol")]
+    if len(csts) != 1:
+        r5.brk("the store of the decoded escape value was not recognised (%d candidates)" % len(csts))
+    else:
+        el, rhs = csts[0]
+        rr = strip(rhs)
+        if is_e(rr, "call") and callee_name(rr) == "strtol":
+            base16 = is_e(strip(rr[2][2]), "int") and strip(rr[2][2])[1] == 16
+            tmpv = strip(rr[2][0])
+            srcs = {}
+            for e2, l2, op2, r2_ in f.stores():
+                l2 = strip(l2)
+                if is_e(l2, "idx") and eq(l2[1], tmpv) and is_e(strip(l2[2]), "int"):
+                    srcs[strip(l2[2])[1]] = "NUL" if (is_e(strip(r2_), "int") and strip(r2_)[1] == 0) else show(r2_)
+            want = {0: "%s[(i + 1)]" % uri, 1: "%s[(i + 2)]" % uri, 2: "NUL"}
+            okd = base16 and all(srcs.get(k) == v for k, v in want.items())
+            r5.inst("strtol", {"site": el.where(), "idiom": "strtol(tmp, NULL, 16) with tmp = {uri[i+1], uri[i+2], NUL}", "digits": srcs, "ok": okd})
+            if not okd:
+                r5.bad("K6:evhttp_decode_uri_internal:escape-value", el.where(), f.name, "the escape is not converted from exactly its two digits in base 16: %s" % srcs)
+        else:
+            leaves = [q for q in walk(rr) if is_e(q, "idx") and eq(q[1], ["var", uri, "param"])]
+            k1 = key(["idx", ["var", uri, "param"], ["bin", "+", ["var", "i", "local"], ["int", 1, "1"]]])
+            k2 = key(["idx", ["var", uri, "param"], ["bin", "+", ["var", "i", "local"], ["int", 2, "2"]]])
+            wrong = []
+            try:
+                for a in HEX:
+                    for b_ in HEX:
+                        v = evalx(rhs, {k1: ord(a), k2: ord(b_)}, P) & 0xff
+                        if v != int(a + b_, 16):
+                            wrong.append("%%%s%s->%#x" % (a, b_, v))
+                r5.inst("expr", {"site": el.where(), "expression": show(rr)[:90], "pairs_checked": len(HEX) ** 2, "wrong": wrong[:6]})
+                if wrong:
+                    r5.bad("K6:evhttp_decode_uri_internal:escape-value", el.where(), f.name,
+                           "%d of %d hexadecimal digit pairs decode to the wrong byte (e.g. %s)" % (len(wrong), len(HEX) ** 2, ", ".join(wrong[:4])))
+            except EvalError as ex:
+                r5.brk("escape value expression cannot be evaluated: %s" % ex)
+    rules.append(r5)
     rules.append(r4)
     return rules
